@@ -489,3 +489,9 @@ Proof.
   apply mux_conserves; [exact Hnd | | exact Hc].
   rewrite <- E. apply in_combine_map. exact Hin.
 Qed.
+
+Lemma resegment_file_conserves d frags segs :
+  resegment_file d frags = Ok segs ->
+  concat segs = concat (map (@concat _) frags) /\
+  exists first others, segs = first :: others /\ segs_start_ok d 1 others.
+Proof. unfold resegment_file, in_samples. apply resegment_conserves. Qed.
